@@ -55,6 +55,8 @@ def main():
             a["n"] += e["n"]
             if d.get("mode", "serial") == "serial":
                 a["idx"] = (a["idx"] + e["idx"])[:5]
+            else:
+                a.setdefault("seen_in", set()).add(d.get("mode"))
         if d.get("mode", "serial") == "serial":
             for k, v in d["pairs"].items():
                 p = pairs.setdefault(k, [0, 0])
@@ -81,6 +83,8 @@ def main():
             unexpected.append(a)
             continue
         ent = {"status": "known", "property": prop, "key": key, "what": what, "audit_count": a["n"]}
+        if a.get("seen_in"):
+            ent["seen_in"] = sorted(a["seen_in"])
         if a["idx"]:
             ent["probe"] = a["idx"][0]
         findings.append(ent)
